@@ -29,15 +29,30 @@ import traceback
 
 from vlib import core, corr
 
-DEPENDS = ["harness/sim (real QuicConnection pairs, wire observer, puppet)", "coq/gen/LogSkeleton.v (generated)"]
+DEPENDS = ["harness/sim (real QuicConnection pairs, wire observer, puppet)", "coq/gen/LogSkeleton.v (generated)",
+           "coq/gen/LogEncoders.v (generated)", "coq/gen/LogRecords.v (generated)"]
+GENERATORS = ["c20_skeleton", "c20_encoders", "c20_records"]
 TRUSTED_BASE = [
     "harness/sim: driver loop, deterministic os.urandom/time/key generation, wire observer (independent frame parser), puppet",
     "tools/gen/c20_skeleton.py: Python-ast effect-skeleton extraction (fail-closed: unknown constructs become OTHER)",
     "skeleton language abstraction: Python values/aliasing/exceptions inside expressions are not modelled (see docs/C20.md)",
     "extraction (ExtrOcamlBasic) + OCaml driver for exec_logenc",
+    "tools/gen/c20_encoders.py: translation of logger.py's method bodies into model/LogVal.v's language (fails closed) and TYPE INFERENCE of "
+    "the argument / leaf expressions of every encoder call site and log_event record: annotations of parameters, dataclass fields, "
+    "`self.x: T` and return types are believed; un-annotated names get the join of everything assigned to them; None-arithmetic and "
+    "max/min with None are taken to raise in core code (with or without logging)",
+    "tools/gen/c20_records.py: control-skeleton extraction for the record automata; exceptions raised implicitly by calls are not "
+    "represented (between start_frame and its record: buf.push_*, C13's subject); the logger guard is taken",
+    "model/LogVal.v evaluator is pessimistic (Err on operand combinations the encoders do not use); str(bytes) text of lenient decoding "
+    "is not modelled; tie: real encoders vs `call enc_tabs` by vm_compute on generated arguments of every method",
     "decrypt accounting: a counting wrapper around aioquic.quic.crypto.CryptoPair.decrypt_packet, installed in both runs of a pair",
 ]
 ASSUMPTIONS = [
+    "encoders_total_all / qlog_json_serialisable: values of the declared / inferred types (a bytes object holds bytes, an object has the "
+    "attributes of its class table); JSON = what json.dump accepts without default= (NaN/Infinity not excluded: json_strict is a separate, "
+    "dynamic check with allow_nan=False)",
+    "one_record_per_packet_*: stated over the generated control skeletons for ALL decision sequences; start_frame either raises "
+    "QuicPacketBuilderStop before writing or writes the frame type; nothing raises between a start_frame and its record",
     "erasure_noninterference premises (explicit in the theorem): functions classed log-ok only touch log-owned locations and "
     "do not raise; core functions do not depend on log-owned locations",
     "the log-ok premise is FALSE for encode_http3_headers_frame / encode_http3_push_promise_frame on non-UTF-8 header bytes "
@@ -366,6 +381,8 @@ def gen_hostile_ops(rng, subject_side, n, first_kind=None):
             elif k == "ack":
                 f["ranges"] = [[0, rng.choice([0, 3, 1000])]] if rng.random() < 0.5 else [[2, 3], [7, rng.choice([7, 90])]]
                 f["delay"] = rng.choice([0, 10, 1 << 40])
+                # ACK_ECN (0x03): aioquic never sends one, so only a hostile peer exercises the ECN counts
+                f["ecn"] = rng.choice([None, None, [0, 0, 0], [1, 0, 0], [5, 0, 0], [37, 2, 0], [1 << 20, 3, 1]])
             elif k == "padding":
                 f["n"] = rng.choice([1, 20, 600])
             ops.append({"op": "frames", "epoch": "1rtt", "frames": [f]})
@@ -443,7 +460,7 @@ def _mk_frame(F, f):
     if k == "crypto":
         return F.crypto(f["off"], bytes.fromhex(f["data"]))
     if k == "ack":
-        return F.ack([tuple(r) for r in f["ranges"]], delay=f.get("delay", 0))
+        return F.ack([tuple(r) for r in f["ranges"]], delay=f.get("delay", 0), ecn=tuple(f["ecn"]) if f.get("ecn") else None)
     if k == "padding":
         return F.padding(f.get("n", 1))
     if k == "truncated":
@@ -795,6 +812,11 @@ def check_on_run(case, obs, extras):
             doc = json.loads(text)
         except Exception as exc:
             return [("json.dumps(QuicLogger.to_dict()) failed: %r" % (exc,), {"rule": "qlog_json", "exception": type(exc).__name__})]
+        try:
+            json.dumps(ql.to_dict(), allow_nan=False)
+        except ValueError as exc:
+            bad.append(("the qlog document contains NaN / Infinity, which is not JSON (RFC 8259): %r" % (exc,),
+                        {"rule": "qlog_json_strict"}))
         events = [e for tr in doc["traces"] for e in tr["events"]]
         extras["qlog_events"] = len(events)
         names = collections.Counter(e["name"] for e in events)
@@ -1207,6 +1229,286 @@ def enc_suite(ctx, reported_sigs):
 
 
 # ======================================================================================
+# model/LogVal.v (generated encoder bodies) vs the real QuicLoggerTrace methods
+
+
+def _gen_methods():
+    """(name, [(param, type string)]) of coq/gen/LogEncoders.v's enc_methods"""
+    import os
+    text = open(os.path.join(core.COQ, "gen", "LogEncoders.v")).read()
+    sect = text[text.index("Definition enc_methods"):text.index("Definition enc_sites")]
+    out = []
+    for m in re.finditer(r'mkMeth "([^"]+)" \[(.*?)\]\n', sect):
+        ps = re.findall(r'\("([^"]+)", (\([A-Za-z]+ "[^"]*"\)|[A-Za-z]+)\)', m.group(2))
+        out.append((m.group(1), ps))
+    return out, json.loads(re.search(r"\(\* SUMMARY (\{.*?\}) \*\)", text).group(1))
+
+
+def _cq(s):
+    return '"' + s.replace('"', '""') + '"'
+
+
+def _cfloat(x):
+    import math
+    if x != x:
+        return "nan"
+    if x in (float("inf"), float("-inf")):
+        return "infinity" if x > 0 else "neg_infinity"
+    if x == 0.0:
+        return "neg_zero" if math.copysign(1.0, x) < 0 else "zero"
+    m, e = math.frexp(abs(x))
+    return "(f_lit %s %d (%d))" % ("true" if x < 0 else "false", int(m * (1 << 53)), e - 53)
+
+
+def _cjson(v):
+    if v is None:
+        return "VNone"
+    if isinstance(v, bool):
+        return "(VBool %s)" % ("true" if v else "false")
+    if isinstance(v, int):
+        return "(VInt (%d))" % v
+    if isinstance(v, float):
+        return "(VFloat %s)" % _cfloat(v)
+    if isinstance(v, str):
+        return "(VStr %s)" % _cq(v)
+    if isinstance(v, bytes):
+        return "(VBytes [%s])" % "; ".join(str(b) for b in v)
+    if isinstance(v, (list, tuple)):
+        return "(VList [%s])" % "; ".join(_cjson(x) for x in v)
+    if isinstance(v, dict):
+        return "(VDict [%s])" % "; ".join("(%s, %s)" % (_cjson(k), _cjson(x)) for k, x in v.items())
+    raise ValueError(v)
+
+
+def _pyser(v):
+    import math
+    if v is None:
+        return [0]
+    if isinstance(v, bool):
+        return [1, int(v)]
+    if isinstance(v, int):
+        return [2, int(v)]
+    if isinstance(v, float):
+        if v != v:
+            return [5]
+        if v in (float("inf"), float("-inf")):
+            return [4, int(v < 0)]
+        if v == 0.0:
+            return [3, int(math.copysign(1.0, v) < 0), 0, 0]
+        # canonical (mantissa, exponent) of SpecFloat / Prim2SF: exponent = max(exp - 53, -1074), also for subnormals
+        m, ex = math.frexp(abs(v))
+        e = max(ex - 53, -1074)
+        return [3, int(v < 0), int(math.ldexp(m, ex - e)), e]
+    if isinstance(v, str):
+        b = v.encode("utf8", "surrogatepass")
+        return [6, len(b)] + list(b)
+    if isinstance(v, bytes):
+        return [7, len(v)] + list(v)
+    if isinstance(v, (list, tuple)):
+        out = [8, len(v)]
+        for x in v:
+            out += _pyser(x)
+        return out
+    if isinstance(v, dict):
+        out = [9, len(v)]
+        for k, x in v.items():
+            out += _pyser(k) + _pyser(x)
+        return out
+    return [11]
+
+
+_SAFE = "abcdefghijklmnopqrstuvwxyzABCDEFGHIJKLMNOPQRSTUVWXYZ0123456789 :-_./=?&%+()[]{}<>!#*,;@^~|$'`"
+_EXN = {"KeyError": 1, "UnicodeDecodeError": 2, "TypeError": 3, "AttributeError": 4, "IndexError": 5, "OverflowError": 6,
+        "NameError": 7, "UnboundLocalError": 7, "ValueError": 8}
+
+
+def _gen_value(rng, ty, case):
+    """-> (python value, Coq term) of a value of Coq type `ty` (string as printed in the generated file)"""
+    from aioquic.quic.packet import QuicPacketType, QuicStreamFrame, QuicTransportParameters
+    from aioquic.quic.rangeset import RangeSet
+    ints = [0, 1, -1, 7, 255, 1200, 2 ** 31, 2 ** 62 - 1, 2 ** 62, 2 ** 64 + 5, -(2 ** 63)]
+    def rint():
+        return rng.choice(ints) if rng.random() < 0.5 else rng.randrange(0, 1 << rng.randrange(1, 62))
+    def rbytes(n=20):
+        return bytes(rng.randrange(256) for _ in range(rng.randrange(0, n)))
+    def rstr():
+        return "".join(rng.choice(_SAFE) for _ in range(rng.randrange(0, 12)))
+    def rfloat():
+        r = rng.random()
+        if r < 0.08:
+            return rng.choice([0.0, -0.0, float("inf"), float("-inf"), 1e306, 5e-324, 1e-310])
+        if r < 0.5:
+            return rng.uniform(0, 5.0)
+        return rng.uniform(-1e9, 1e9) * 10 ** rng.randrange(-12, 12)
+    def rjson(d=0):
+        r = rng.random()
+        if d > 2 or r < 0.5:
+            return rng.choice([None, True, False, rint(), rstr(), rfloat() if rng.random() < 0.5 else rint()])
+        if r < 0.75:
+            return [rjson(d + 1) for _ in range(rng.randrange(0, 4))]
+        return {rstr() + str(i): rjson(d + 1) for i in range(rng.randrange(0, 4))}
+    if ty == "TInt":
+        v = rint(); return v, _cjson(v)
+    if ty == "TFloat":
+        v = rfloat(); return v, _cjson(v)
+    if ty == "TStr":
+        v = rstr(); return v, _cjson(v)
+    if ty == "TBool":
+        v = rng.random() < 0.5; return v, _cjson(v)
+    if ty == "TBytes":
+        v = rbytes(); return v, _cjson(v)
+    if ty == "TOptInt":
+        v = None if rng.random() < 0.4 else rint(); return v, _cjson(v)
+    if ty == "TJson":
+        v = rjson(); return v, _cjson(v)
+    if ty == '(TEnumOf "QuicPacketType")':
+        m = rng.choice(list(QuicPacketType)); return m, '(VEnum "QuicPacketType" %s)' % _cq(m.name)
+    if ty == '(TObj "QuicStreamFrame")':
+        d, f, o = rbytes(40), rng.random() < 0.5, rint()
+        return QuicStreamFrame(data=d, fin=f, offset=o), '(VObj "QuicStreamFrame" [("data", %s); ("fin", %s); ("offset", %s)])' % (_cjson(d), _cjson(f), _cjson(o))
+    if ty == '(TListObj "range")':
+        rs, pos = [], rng.randrange(0, 1 << rng.randrange(1, 40))
+        for _ in range(rng.randrange(0, 6)):
+            a = pos + rng.randrange(1, 50); b = a + rng.randrange(1, 1 << rng.randrange(1, 30)); rs.append((a, b)); pos = b
+        return RangeSet([range(a, b) for a, b in rs]), "(VList [%s])" % "; ".join(
+            '(VObj "range" [("start", VInt %d); ("stop", VInt %d)])' % ab for ab in rs)
+    if ty == "THeaders":
+        ascii_only = rng.random() < 0.7
+        case["model_comparable"] = case.get("model_comparable", True) and ascii_only
+        def hb():
+            return bytes(rng.randrange(32, 127) if ascii_only else rng.randrange(256) for _ in range(rng.randrange(0, 10)))
+        hs = [(hb(), hb()) for _ in range(rng.randrange(0, 5))]
+        return hs, "(VList [%s])" % "; ".join("(VTuple [%s; %s])" % (_cjson(n), _cjson(v)) for n, v in hs)
+    if ty == '(TObj "QuicTransportParameters")':
+        import dataclasses
+        kw, attrs = {}, []
+        for f in dataclasses.fields(QuicTransportParameters):
+            r = rng.random()
+            t = str(f.type)
+            if "QuicPreferredAddress" in t or "QuicVersionInformation" in t:
+                v = None
+            elif r < 0.35:
+                v = None
+            elif "bytes" in t:
+                v = rbytes(21)
+            elif "bool" in t:
+                v = rng.random() < 0.5
+            else:
+                v = rint()
+            kw[f.name] = v
+            attrs.append("(%s, %s)" % (_cq(f.name), _cjson(v)))
+        return QuicTransportParameters(**kw), '(VObj "QuicTransportParameters" [%s])' % "; ".join(attrs)
+    raise ValueError("no generator for type %s" % ty)
+
+
+_VAL_PREAMBLE = ("From Coq Require Import String PrimFloat.\nFrom AQ Require Import lib.Base model.LogVal gen.LogEncoders.\n"
+                 "Open Scope string_scope.\nOpen Scope Z_scope.\n")
+
+
+def _val_case(methods, name, cs):
+    """one logval case, fully determined by (method name, case seed): runs the real method, returns the case record
+    (with the implementation's tokens and the oracle verdict) and the Coq expression for the model"""
+    from aioquic.quic import logger as ql
+    params = dict(methods)[name]
+    rng = random.Random(cs)
+    case = {"suite": "logval", "method": name, "seed": cs, "model_comparable": True}
+    odcid = bytes(rng.randrange(256) for _ in range(rng.randrange(0, 21)))
+    trace = ql.QuicLoggerTrace(is_client=rng.random() < 0.5, odcid=odcid)
+    pre_events = [{"data": {"n": k}, "name": "x:y", "time": float(k)} for k in range(rng.randrange(0, 3))]
+    trace._events.extend(pre_events)
+    self_term = '(VObj "QuicLoggerTrace" [("_odcid", %s); ("_events", %s); ("_vantage_point", %s)])' % (
+        _cjson(odcid), _cjson(pre_events), _cjson(trace._vantage_point))
+    now = rng.uniform(0, 2e9)
+    kwargs, terms, shown = {}, [], {}
+    for pname, ty in params:
+        if pname == "self":
+            terms.append(self_term)
+        elif pname == "%time":
+            terms.append(_cjson(now))
+        else:
+            v, t = _gen_value(rng, ty, case)
+            kwargs[pname] = v
+            terms.append(t)
+            shown[pname] = repr(v)[:200]
+    case.update({"args": shown, "odcid": list(odcid), "now": now})
+    saved = ql.time.time
+    ql.time.time = lambda: now
+    err = None
+    try:
+        if name == "hexdump":
+            got = ql.hexdump(**kwargs)
+        else:
+            got = getattr(trace, name)(**kwargs)
+            if name == "log_event":
+                got = trace._events[-1]
+        impl = [0] + _pyser(got)
+        try:
+            json.loads(json.dumps(got))
+        except Exception as exc:
+            err = ("QuicLoggerTrace.%s returned a value json.dumps rejects (%r) for arguments of its declared types %r" % (name, exc, shown),
+                   {"rule": "encoder_json", "exception": type(exc).__name__, "site": name})
+    except Exception as exc:
+        impl = [1, _EXN.get(type(exc).__name__, 99)]
+        tb = traceback.extract_tb(exc.__traceback__)
+        err = ("QuicLoggerTrace.%s raised %r on arguments of its declared types %r" % (name, exc, shown),
+               {"exception": type(exc).__name__, "site": tb[-1].name if tb else name})
+    finally:
+        ql.time.time = saved
+    case["impl"] = impl
+    return case, err, "call_named enc_tabs enc_methods %s [%s]" % (_cq(name), "; ".join(terms))
+
+
+def val_suite(ctx, n):
+    """every generated method body (model/LogVal.v, by vm_compute) against the real method of the tree under test"""
+    methods, summary = _gen_methods()
+    rng = ctx.rng
+    cases, exprs = [], []
+    stats = collections.Counter()
+    seen_sigs = set()
+    for i in range(n):
+        name = methods[i % len(methods)][0] if i < 2 * len(methods) else rng.choice(methods)[0]
+        case, err, expr = _val_case(methods, name, rng.getrandbits(48))
+        stats["cases"] += 1
+        stats["by_method:" + name] += 1
+        if err:      # implementation oracle: encoders_total / JSON on the code itself
+            stats["oracle_failures"] += 1
+            key = json.dumps(err[1], sort_keys=True)
+            if key not in seen_sigs:
+                seen_sigs.add(key)
+                ctx.violation("impl-violation", "logval: " + err[0], corr._short(case, 3000), signature=err[1])
+        cases.append(case)
+        exprs.append(expr)
+    outs = core.run_vm(_VAL_PREAMBLE, exprs)
+    reported = False
+    for case, out in zip(cases, outs):
+        if not case["model_comparable"]:
+            stats["structure_only"] += 1
+            ok = out[:1] == case["impl"][:1]         # non-ASCII header bytes: the decoded text is not modelled
+        else:
+            ok = out == case["impl"]
+        if ok:
+            stats["agree"] += 1
+        elif not reported:
+            reported = True
+            ctx.violation("correspondence", "logval: generated encoder model and QuicLoggerTrace.%s disagree" % case["method"],
+                          corr._short(case, 3000), signature={"suite": "logval", "kind": "correspondence"},
+                          extra={"impl_output": case["impl"][:200], "model_output": out[:200], "correspondence": "logval"}, no_input=True)
+    return {"cases": stats["cases"], "agree": stats["agree"], "structure_only": stats["structure_only"],
+            "oracle_failures": stats["oracle_failures"], "methods": len(methods),
+            "by_method": {k[10:]: v for k, v in stats.items() if k.startswith("by_method:")}, "generated": summary}
+
+
+def records_summary():
+    import os
+    try:
+        text = open(os.path.join(core.COQ, "gen", "LogRecords.v")).read()
+    except FileNotFoundError:
+        return {"missing": True}
+    m = re.search(r"\(\* SUMMARY (\{.*?\}) \*\)", text, re.S)
+    return json.loads(m.group(1)) if m else {"unparsed": True}
+
+
+# ======================================================================================
 # driver
 
 
@@ -1269,6 +1571,16 @@ def run(ctx):
         core.log(traceback.format_exc()[-1500:])
         ctx.violation("harness", "encoder correspondence aborted: %r" % (exc,), None, no_input=True)
 
+    # generated encoder bodies (model/LogVal.v) vs logger.py
+    val_cov = None
+    try:
+        val_cov = val_suite(ctx, ctx.n(360, 3000))
+    except Exception as exc:
+        core.log("logval correspondence failed: %r" % (exc,))
+        core.log(traceback.format_exc()[-1500:])
+        if ctx.proof_ok():
+            ctx.violation("harness", "logval correspondence aborted: %r" % (exc,), None, no_input=True)
+
     skeleton = skeleton_summary()
     cov = {
         "evaluations": agg["pairs"] * 2,
@@ -1288,6 +1600,10 @@ def run(ctx):
         },
         "skeleton": skeleton,
     }
+    cov["records_skeleton"] = records_summary()
+    if val_cov is not None:
+        cov["logval"] = val_cov
+        cov["evaluations"] += val_cov["cases"]
     if enc_cov is not None:
         cov["correspondence"] = {"logenc": enc_cov.summary()}
         cov["correspondence"]["logenc"]["oracle_failures_same_signature_as_reported"] = enc_cov.suppressed
@@ -1313,6 +1629,11 @@ def replay(ctx, rep):
     case = rep["case"]
     if isinstance(case, str):
         case = json.loads(case)
+    if case.get("suite") == "logval":      # generated encoder model vs the real method
+        methods, _ = _gen_methods()
+        c2, err, expr = _val_case(methods, case["method"], case["seed"])
+        return {"impl": c2["impl"], "model": core.run_vm(_VAL_PREAMBLE, [expr])[0], "args": c2["args"],
+                "oracle": {"what": err[0], "signature": err[1]} if err else None}
     if "k" in case:       # encoder correspondence case
         bad = enc_oracle(case)
         return {"impl": enc_impl(case), "model": core.run_model("exec_logenc", [enc_encode(case)], shards=1)[0],
